@@ -11,7 +11,9 @@
      * serialized_bytes in info-only mode is the slice s[idx : idx + declared]
        (clipped at the end of the string, like every Python slice);
      * with a filter, a message that does NOT match is advanced over by the
-       length of the METADATA-ONLY decode's serialized_bytes in full mode;
+       length of the METADATA-ONLY decode's serialized_bytes in full mode
+       (and, after the repair C11_tabledef_filter, is not handed to the
+       table-definition processor);
      * only library errors (Base.is_lib_err) are caught, and only with
        continue_on_error; the recovery re-decodes metadata-only and advances by
        the DECLARED length (unclipped), or by 1 if that fails with a library
@@ -110,20 +112,25 @@ Section Scanner.
       | Ok bm => Ok (bm, true)
       end.
 
-  (* serialized_bytes of the message after the [if info_only: ... else: ...] block *)
-  Definition piece_of (info_only : bool) (bm : msginfo) (sl : list byte) : result (list byte) :=
+  (* serialized_bytes of the message after the [if info_only: ... else: ...] block.
+     The table-definition branch runs only for a message that passed the filter
+     (repaired code, fixes/C11_tabledef_filter.diff: the original ran it on the
+     metadata-only message of a rejected one, which has no template data). *)
+  Definition piece_of (info_only matched : bool) (bm : msginfo) (sl : list byte) : result (list byte) :=
     if info_only then Ok (firstn (mi_declared bm) sl)         (* s[idx : idx + length.value] *)
-    else match hook bm with
-         | Err e => Err e
-         | Ok _ => Ok (firstn (mi_consumed bm) sl)             (* as set by Decoder.process *)
-         end.
+    else if matched then
+           match hook bm with
+           | Err e => Err e
+           | Ok _ => Ok (firstn (mi_consumed bm) sl)           (* as set by Decoder.process *)
+           end
+         else Ok (firstn (mi_consumed bm) sl).
 
   (* the body of the try block *)
   Definition attempt (info_only use_filter : bool) (sl : list byte) : result (list byte * bool) :=
     match decode_step info_only use_filter sl with
     | Err e => Err e
     | Ok (bm, matched) =>
-      match piece_of info_only bm sl with
+      match piece_of info_only matched bm sl with
       | Err e => Err e
       | Ok p => Ok (p, matched)
       end
@@ -196,8 +203,7 @@ Section Scanner.
     exists mi, (forall t, process_info (m ++ t) = Ok mi) /\ filt mi = Ok b /\
       if info_only then mi_declared mi = length m
       else if b then full_ok m
-           else hook mi = Ok tt /\ mi_consumed mi <= length m /\
-                ~ In 66%N (skipn (mi_consumed mi) m).
+           else mi_consumed mi <= length m /\ ~ In 66%N (skipn (mi_consumed mi) m).
 
   (* a damaged message (C12): the full decode fails with error e whatever follows *)
   Definition full_fails (m : list byte) (e : err) : Prop :=
